@@ -72,8 +72,17 @@ def check(rep, an, tier):
             rep.check("R-QTY", "A is linear in the sources and in the filters", None if deg is None else
                       (deg.get("sources") == 1 and deg.get("self.filters") == 1), where=ev.loc, construct=ev.text(), entry=entry,
                       config=res.config, msg=f"degrees {deg}")
+        # the spectra are integrated AS GIVEN (resampled at most): they are not divided by a functional of themselves on any path —
+        # a re-normalisation makes A homogeneous of degree 0 in the sources, so A no longer carries the intensity unit of the spectra
+        for dv in res.events("self_quotient"):
+            if "sources" in dv.d["origins"]:
+                rep.violated("R-QTY", "A carries the scale of the source spectra", where=dv.loc, construct=dv.text()[:80], entry=entry,
+                             config=res.config,
+                             msg="the source spectra are divided by a quantity computed from themselves (their own integral / norm) before the "
+                                 "capture matrix is built: A is then invariant to the scale of the spectra — the capture of x·source is no longer x·A")
         D.consistency(rep, res, entry)
         R.rule_type_errors(rep, res, "SHAPE", "R-SHAPE", entry)
+        R.rule_type_errors(rep, res, "QTY", "R-QTY", entry)
         for tv in res.events("abs_tolerance"):
             at = tv.d.get("atol")
             if tv.d.get("dimensioned") and not (at is not None and at.known and at.const == 0):
